@@ -378,6 +378,10 @@ def op_instantiate(M_, eng):
     valid = Or([And(p == bv64(q), M_.pk_some[q], M_.pk_gen[q] == g) for q in range(M_.P)])
     return [Agg((p, g), 'PackageId')], [valid], {'pidx': p, 'pgen': g}
 
+@op('set_node_name')
+def op_set_node_name(M_, eng):
+    nid, n, live = live_node_arg(M_, 'arg_node'); name = Lazy('arg_name', 'std::string::String'); return [nid, name], [live], {'node': n, 'name': name}
+
 def op_fn(eng, opname):
     c = eng.index.get(('CompositionGraph', None, opname), [])
     if len(c) != 1: raise engine.EngineError(f'cannot find CompositionGraph::{opname}: {c}')
@@ -431,7 +435,7 @@ def body(chk):
     only = os.environ.get('C06_ONLY')
     chk.assumptions += ['pre-states satisfy the representation invariant RI (clauses listed in specs/c06.py) plus the stated realisability restrictions: alias nodes have a higher index than their source, argument sources are function-typed imports or aliases, live packages have generation 0',
                         'types arena, package contents and subtype verdicts are uninterpreted; ComponentName validity is an arbitrary boolean',
-                        'define_type and register_package are not encoded (outside the claim)']
+                        'register_package is not encoded (outside the claim); node names are not part of the state view (set_node_name: no panic, RI and liveness preserved)']
     parts = []
     for opname in OPS:
         if only and opname != only: continue
@@ -629,6 +633,10 @@ def effect(opname, M_, decls, o, post, argterms):
         if en == 'TypeAlreadyDefined': return Or([And(l, type_ident(k) == type_ident(ty)) for (l, k, n) in M_.defined])
         if en == 'ExportConflict': return Or([And(l, lazy_atom(k).t == lazy_atom(name).t) for (l, k, n) in M_.exports])
         return None
+    if opname == 'set_node_name':
+        # naming touches nothing the queries see: the node stays, every node keeps its liveness and its export
+        node = argterms['node']
+        return And([post.sel(node, post.live, BoolVal(False))] + [post.live(i) == M_.live[i] for i in range(M_.NN)])
     if opname == 'import':
         name = argterms['name']
         imps = post.map_entries(post.imports)
